@@ -12,7 +12,7 @@
     results was applied exactly once — is exercised by the driver through a
     fault-injecting proxy; notifications that arrive while a monitor is being
     restarted are C01's deferral theorem. *)
-From LOV Require Import Cli.Reconnect.
+From LOV Require Import Cli.Reconnect Cli.Since Cli.SinceProofs Srv.MonitorProofs.
 
 Theorem C16_reconnect_resynchronises : forall d c ms order,
   order ≡ₚ ms -> forall t, reconnect_fixed d c order t = monitored d ms t.
@@ -29,3 +29,40 @@ Theorem C16_pinned_rule_refuted :
     exists t, reconnect_pinned d c order t <> monitored d ms t.
 Proof. exact reconnect_pinned_refuted. Qed.
 Print Assumptions C16_pinned_rule_refuted.
+
+(** * a single monitor_cond_since monitor and a server that knows past
+    transaction ids (the last-transaction-id known or unknown to the server)
+
+    A client that is good for the current state - its cache is the monitored
+    part of it, and the server logged nothing else under the client's id -
+    stays so through any session of update3 notifications and reconnections,
+    whether or not the answering server finds the id; in particular after
+    every reconnection its cache is the monitored part of the database. *)
+Theorem C16_since_reply_resynchronises : forall q, all_kinds q -> forall τ h s st known cur_id cur,
+  good q h s st ->
+  (forall old, hist_get h (cs_last s) = Some old -> tbl_typed τ old) -> tbl_typed τ cur ->
+  hist_get h cur_id = Some cur ->
+  good q h (on_reply_fixed s (since_reply q h known (cs_last s) cur_id cur)) cur.
+Proof. exact reply_resynchronises. Qed.
+Print Assumptions C16_since_reply_resynchronises.
+
+Theorem C16_since_session : forall q, all_kinds q -> forall τ h es s st,
+  (forall id old, hist_get h id = Some old -> tbl_typed τ old) ->
+  good q h s st -> tbl_typed τ st -> Forall (logged τ h) es ->
+  let x := fold_left (step q h) es (s, st) in good q h x.1 x.2 /\ cs_cache x.1 = pc q <$> x.2.
+Proof. exact session_keeps_client_synchronised. Qed.
+Print Assumptions C16_since_session.
+
+(** the pinned client kept its old id after found = false: a later found = true for that id diverges *)
+Theorem C16_pinned_since_refuted :
+  let q := default_req in
+  let s0 := mkCS (pc q <$> ex_A) 1%N in
+  good q ex_h s0 ex_A /\
+  let s1 := on_reply_pinned s0 (since_reply q ex_h false (cs_last s0) 2%N ex_B) in
+  let s2 := on_reply_pinned s1 (since_reply q ex_h true (cs_last s1) 2%N ex_B) in
+  cs_cache s2 <> pc q <$> ex_B /\
+  let t1 := on_reply_fixed s0 (since_reply q ex_h false (cs_last s0) 2%N ex_B) in
+  let t2 := on_reply_fixed t1 (since_reply q ex_h true (cs_last t1) 2%N ex_B) in
+  cs_cache t2 = pc q <$> ex_B.
+Proof. exact pinned_since_refuted. Qed.
+Print Assumptions C16_pinned_since_refuted.
